@@ -294,7 +294,7 @@ def r5_charref(ctx):
                 ctx.ob("R5", site + ":zero", zero not in (0, None), "IllegalCharacter exactly on the zero path", config=cfg)
             elif rv[:2] == ("Err", "InvalidCodepoint"):
                 ctx.ob("R5", site + ":invalid", fu == 0, "InvalidCodepoint exactly when char::from_u32 is None", config=cfg)
-        ctx.floor("R5", "returning paths of parse_number", rows, 8, config=cfg)
+        ctx.floor("R5", "returning paths of parse_number", rows, 4, config=cfg)
         g = ctx.body(F, "escape::from_str_radix", "R5")
         if g is None:
             continue
